@@ -344,6 +344,9 @@ const boundedQ = 5
 // noReindex switches quantifier re-indexing off (GOVC_NOREINDEX=1, for comparison).
 var noReindex = os.Getenv("GOVC_NOREINDEX") != ""
 
+// noExpand keeps small literal quantifier ranges quantified (GOVC_NOEXPAND=1, for comparison).
+var noExpand = os.Getenv("GOVC_NOEXPAND") != ""
+
 // reindexAll: also re-index quantifiers of the function's own clauses
 // (invariants, postconditions), not only facts taken from callee contracts.
 var reindexAll = os.Getenv("GOVC_REINDEX_ALL") != ""
@@ -425,6 +428,22 @@ func (e *evalCtx) quant(t *ast.CallExpr, q string) Val {
 			return boolVal(and(parts...))
 		}
 		return boolVal(or(parts...))
+	}
+	// a literal range of at most 16 values is spelled out (no quantifier to
+	// instantiate, no case split left to the solver)
+	if l, ok := isNumLit(lo); ok {
+		if h, ok2 := isNumLit(hi); ok2 && l.IsInt64() && h.IsInt64() && h.Int64()-l.Int64() <= 16 && !noExpand {
+			var parts []string
+			for k := l.Int64(); k < h.Int64(); k++ {
+				inner := e.withBound(id.Name, mathInt(num(k)))
+				inner.inQuant = true
+				parts = append(parts, inner.boolOf(t.Args[3]))
+			}
+			if q == "forall" {
+				return boolVal(and(parts...))
+			}
+			return boolVal(or(parts...))
+		}
 	}
 	e.c.qctr++
 	bn := fmt.Sprintf("%s_q%d", id.Name, e.c.qctr)
